@@ -61,6 +61,25 @@ func (c *Clock) After(time.Duration) <-chan time.Time {
 	return ch
 }
 
+// NewTimer: a timer that has already fired (waiting is not modelled; the code after the wait is).
+func (c *Clock) NewTimer(time.Duration) clock.Timer {
+	t := &Timer{ch: make(chan time.Time, 1)}
+	t.ch <- c.Now()
+	return t
+}
+
+type Timer struct{ ch chan time.Time }
+
+func (t *Timer) C() <-chan time.Time { return t.ch }
+func (t *Timer) Stop() bool          { return true }
+func (t *Timer) Reset(time.Duration) bool {
+	select {
+	case t.ch <- time.Time{}:
+	default:
+	}
+	return true
+}
+
 // Set pins the clock (Frozen clocks return this instant from now on).
 func (c *Clock) Set(t time.Time) { c.last, c.set = t, true }
 
